@@ -4,13 +4,7 @@ package PKGNAME
 // (installed through the override table), a recording random source and
 // helpers shared by the C14/C15/C16 harnesses.
 
-import (
-	"crypto/rand"
-	"hash"
-	"io"
 
-	"golang.org/x/text/secure/precis"
-)
 
 type hxErrS struct{ s string }
 
@@ -27,114 +21,4 @@ func hxEqBytes(a, b []byte) bool {
 	return d == 0
 }
 
-// ---- uninterpreted hash functions
 
-type hxUFHash struct {
-	tag  string
-	size int
-	bs   int
-	key  []byte
-	buf  []byte
-}
-
-func (h *hxUFHash) Write(p []byte) (int, error) { h.buf = append(h.buf, p...); return len(p), nil }
-func (h *hxUFHash) Sum(b []byte) []byte {
-	return append(b, svUF(h.tag, h.size, h.key, h.buf)...)
-}
-func (h *hxUFHash) Reset()         { h.buf = nil }
-func (h *hxUFHash) Size() int      { return h.size }
-func (h *hxUFHash) BlockSize() int { return h.bs }
-
-// The model digests are 5 bytes wide (8 base64 characters incl. one '=', the
-// same padding class as the real 32- and 20-byte digests): the mechanisms
-// never look inside a digest, so the width only scales the number of
-// symbolic bytes the solver has to carry.
-func hxSHA1New() hash.Hash   { return &hxUFHash{tag: "sha1", size: 5, bs: 64} }
-func hxSHA256New() hash.Hash { return &hxUFHash{tag: "sha256", size: 5, bs: 64} }
-func hxMD5New() hash.Hash    { return &hxUFHash{tag: "md5", size: 4, bs: 64} }
-
-func hxHMACNew(h func() hash.Hash, key []byte) hash.Hash {
-	inner := h().(*hxUFHash)
-	return &hxUFHash{tag: "hmac-" + inner.tag, size: inner.size, bs: inner.bs, key: append([]byte{}, key...)}
-}
-
-func hxHMACEqual(a, b []byte) bool { return hxEqBytes(a, b) }
-
-// hxPBKDF2 models internal/pbkdf2.Key as one uninterpreted function of
-// (password, salt, iterations, length, hash).
-func hxPBKDF2(password, salt []byte, iter, keyLen int, h func() hash.Hash) []byte {
-	inner := h().(*hxUFHash)
-	it := []byte{byte(iter >> 24), byte(iter >> 16), byte(iter >> 8), byte(iter)}
-	return svUF("pbkdf2-"+inner.tag, keyLen, password, salt, it)
-}
-
-// hxPrecisIdentity models precis.OpaqueString.String under the stated
-// assumption that all bytes are printable ASCII (where OpaqueString is the
-// identity); anything else is outside the claim.
-func hxPrecisIdentity(p *precis.Profile, s string) (string, error) {
-	for i := 0; i < len(s); i++ {
-		svAssume(s[i] >= 0x20)
-		svAssume(s[i] <= 0x7e)
-	}
-	return s, nil
-}
-
-// ---- recording random source
-
-type hxRandRec struct {
-	reads    [][]byte
-	concrete bool // distinct concrete bytes per call instead of symbolic ones
-	symPrefix int // >0: only the first symPrefix bytes of each read are symbolic
-}
-
-func (r *hxRandRec) Read(p []byte) (int, error) {
-	var b []byte
-	if r.concrete {
-		b = make([]byte, len(p))
-		for i := range b {
-			b[i] = byte((len(r.reads)+1)*131 + i*37 + 11)
-		}
-	} else if r.symPrefix > 0 && r.symPrefix < len(p) {
-		b = make([]byte, len(p))
-		for i := range b {
-			b[i] = byte((len(r.reads)+1)*131 + i*37 + 11)
-		}
-		copy(b, svBytes("rand", r.symPrefix))
-	} else {
-		b = svBytes("rand", len(p))
-	}
-	copy(p, b)
-	r.reads = append(r.reads, append([]byte{}, b...))
-	return len(p), nil
-}
-
-func hxInstallRand() *hxRandRec {
-	r := &hxRandRec{}
-	rand.Reader = r
-	return r
-}
-
-var _ io.Reader = (*hxRandRec)(nil)
-
-const hxB64Tbl = "ABCDEFGHIJKLMNOPQRSTUVWXYZabcdefghijklmnopqrstuvwxyz0123456789+/"
-
-// hxB64Enc is the harness' own base64 encoder (reference side).
-func hxB64Enc(in []byte) []byte {
-	var out []byte
-	for i := 0; i < len(in); i += 3 {
-		var v [3]byte
-		n := copy(v[:], in[i:])
-		out = append(out, hxB64Tbl[v[0]>>2], hxB64Tbl[(v[0]&3)<<4|v[1]>>4])
-		if n > 1 {
-			out = append(out, hxB64Tbl[(v[1]&15)<<2|v[2]>>6])
-		} else {
-			out = append(out, '=')
-		}
-		if n > 2 {
-			out = append(out, hxB64Tbl[v[2]&63])
-		} else {
-			out = append(out, '=')
-		}
-	}
-	return out
-}
